@@ -177,7 +177,7 @@ func (e *Env) adminStep(s Req) Resp {
 	var resp Resp
 	for i := 0; i < 30; i++ {
 		resp = e.Do(s, adminCred())
-		if resp.Status/100 != 5 || resp.Err != "" {
+		if resp.Status/100 != 5 || resp.Err != "" || s.Pattern != "/write" {
 			break
 		}
 		time.Sleep(100 * time.Millisecond)
